@@ -208,7 +208,7 @@ theorem ensureReady_spec (m : RadioMode) (t : ChipTrack) (hc : Clean t) (hl : Li
 theorem opSetStandby : op .SetStandby = 0x80 := by decide
 
 theorem setStandby_spec (t : ChipTrack) (hc : Clean t) (ha : Aw t) :
-    wp .sx126x n setStandby (fun _ t' => Ext t t' ∧ Aw t' ∧ t'.mode = .standby) (fun a t' => Ext t t' ∧ a.infra) t := by
+    wp .sx126x n setStandby (fun _ t' => Ext t t' ∧ Aw t' ∧ t'.mode = .standby ∧ Items.le {} t'.items) (fun a t' => Ext t t' ∧ a.infra) t := by
   unfold setStandby
   show wp .sx126x n (Prog.bind _ _) _ _ t
   rw [wp_bind, wp_intfWrite]
@@ -219,7 +219,7 @@ theorem setStandby_spec (t : ChipTrack) (hc : Clean t) (ha : Aw t) :
   rw [hs]
   refine ⟨⟨Ext.refl hc, rfl⟩, ⟨e, rfl⟩, ?_⟩
   rw [wp_req_plain _ _ (Or.inr (Or.inr (Or.inr rfl)))]
-  exact ⟨⟨e, rfl⟩, e, ⟨by simp, by simp⟩, rfl⟩
+  exact ⟨⟨e, rfl⟩, e, ⟨by simp, by simp⟩, rfl, Items.none_le _⟩
 
 theorem sleepValue (w : Bool) :
     SleepParams.value { wakeup_rtc := false, reset := false, warm_start := w } = some (if w then 4 else 0) := by
@@ -475,13 +475,14 @@ theorem ro_processIrqEvent (m : RadioMode) (c : Option Bool) (cl : Bool) (t : Ch
 
 /-! ### the SX126x satisfies `OpsSpec` -/
 
-theorem opsSpec (cfg : Config) : OpsSpec .sx126x cfg.useDcdc cfg.tcxo.isSome Aw (sx126xOps cfg) where
+theorem opsSpec (cfg : Config) : OpsSpec .sx126x cfg.useDcdc cfg.tcxo.isSome {} Aw (sx126xOps cfg) where
   rdy_of_aw := fun _ h => h
+  sb_le := Items.none_le _
   reset := reset_spec
   ensureReady := ensureReady_spec
   setStandby := setStandby_spec
   setSleep := setSleep_spec
-  initLora := fun _ sw => cfg_initLora cfg sw
+  initLora := fun _ sw => (cfg_initLora cfg sw).weaken (by cases cfg.useDcdc <;> cases cfg.tcxo <;> simp only [Option.isSome] <;> decide)
   setTxPower := fun p _ b => cfg_setTxPowerAndRampTime cfg p _ b
   setIrqParams := cfg_setIrqParams
   setModulationParams := fun _ m => cfg_setModulationParams m
